@@ -21,6 +21,9 @@ import FordModel.AttribsSpec
 import FordModel.Lemmas.Attribs
 import FordModel.TypeHead
 import FordModel.Lemmas.TypeHead
+import FordModel.Entity
+import FordModel.Lemmas.Entity
+import FordModel.C01Obs
 namespace Ford.C01
 open Ford.Parse
 
@@ -56,16 +59,19 @@ theorem stray_end_rejects (evs : Evs) (rest : List Item) (hw : evs.wf .file fals
   simp [parseFile, initSt, h, run, step, addEvs]
 
 /-- The order and the guards of the `if/elif` cascade in the current source are the
-    ones `step` implements (regenerated from the source on every run). -/
+    ones `step` implements (regenerated from the source on every run; the local variables of
+    `FortranContainer.__init__` appear alpha-renamed in order of first use - `v1` the lower-cased
+    statement, `v2` the match object, `v3` the BLOCK nesting level, `v4` "after CONTAINS" - so that
+    renaming one of them does not change the table, while reordering branches or guards does). -/
 theorem cascade_as_modelled :
     Generated.C01.cascade =
-      [("line_lower == 'contains'", ""),
-       ("line_lower in ['public', 'private', 'protected']", ""),
-       ("line_lower == 'sequence'", ""),
+      [("v1 == 'contains'", ""),
+       ("v1 in ('private', 'protected', 'public')", ""),
+       ("v1 == 'sequence'", ""),
        ("FORMAT_RE.match", ""),
-       ("ATTRIB_RE.match", "blocklevel == 0"),
+       ("ATTRIB_RE.match", "v3 == 0"),
        ("END_RE.match", ""),
-       ("MODPROC_RE.match", "match['module'] or isinstance(self, FortranInterface)"),
+       ("MODPROC_RE.match", "v2['module'] or isinstance(self, FortranInterface)"),
        ("BLOCK_DATA_RE.match", ""),
        ("BLOCK_RE.match", ""),
        ("ASSOCIATE_RE.match", ""),
@@ -75,13 +81,13 @@ theorem cascade_as_modelled :
        ("SUBROUTINE_RE.match", ""),
        ("NAMELIST_RE.match", ""),
        ("FUNCTION_RE.match", ""),
-       ("TYPE_RE.match", "blocklevel == 0"),
-       ("INTERFACE_RE.match", "blocklevel == 0"),
-       ("ENUM_RE.match", "blocklevel == 0"),
-       ("BOUNDPROC_RE.match", "incontains"),
+       ("TYPE_RE.match", "v3 == 0"),
+       ("INTERFACE_RE.match", "v3 == 0"),
+       ("ENUM_RE.match", "v3 == 0"),
+       ("BOUNDPROC_RE.match", "v4"),
        ("COMMON_RE.match", ""),
-       ("FINAL_RE.match", "incontains"),
-       ("VARIABLE_RE.match", "blocklevel == 0"),
+       ("FINAL_RE.match", "v4"),
+       ("VARIABLE_RE.match", "v3 == 0"),
        ("USE_RE.match", ""),
        ("ARITH_GOTO_RE.search", ""),
        ("CALL_RE.search or SUBCALL_RE.search", "")] := by decide
@@ -356,26 +362,21 @@ open Ford.Mask in
     of `restore_placeholders`: it leaves every quote character in place -/
 theorem nbsp_keeps_quotes : QuoteNeutral nbsp := nbsp_neutral
 
-/-- `QUOTES_RE`, `NBSP_RE` and the statements of the two loops in the current source are the ones
-    `Mask.scanBody`/`search`, `Mask.nbsp`, `Mask.maskLoop` and `Mask.restoreLoop` mirror (regenerated from the
-    source on every run). -/
+open Ford.C01Obs in
+/-- `QUOTES_RE` and `NBSP_RE` as compiled in the working tree mean what `Mask.scanBody`/`search` and `Mask.nbsp` were
+    written for (equal parse trees, or equal behaviour on an exhaustive run over token sequences - the table then
+    carries the modelled text), and the two loops DO what `Mask.mask` and `Mask.restore` compute: on every probe -
+    one-statement files read by the real `FortranContainer.__init__`, initial values restored by the real
+    `line_to_variables` - the masked line, `self.strings`, the restored text or the exception class recorded by
+    the translator is the model's answer (regenerated from the working tree on every run; a rewrite of either
+    loop that keeps its meaning leaves the table unchanged, one that changes what it does on a probe does not). -/
 theorem mask_source_as_modelled :
-    Generated.C01.quotesRe = "\\\"([^\\\"]|\\\"\\\")*\\\"|'([^']|'')*'" ∧
-    Generated.C01.nbspRe = " (?= )|(?<= ) " ∧
-    Generated.C01.maskLoop =
-      ["self.strings = []",
-       "search_from = 0",
-       "while (quote := QUOTES_RE.search(line[search_from:])):",
-       "    self.strings.append(quote.group())",
-       "    line = line[0:search_from] + QUOTES_RE.sub(f'\"{len(self.strings) - 1}\"', line[search_from:], count=1)",
-       "    search_from += QUOTES_RE.search(line[search_from:]).end(0)"] ∧
-    Generated.C01.restoreLoop =
-      ["while (quote := QUOTES_RE.search(initial[search_from:])):",
-       "    num = int(quote.group()[1:-1])",
-       "    string = NBSP_RE.sub('\\xa0', parent.strings[num])",
-       "    string = string.replace('\\\\', '\\\\\\\\')",
-       "    initial = initial[0:search_from] + QUOTES_RE.sub(string, initial[search_from:], count=1)",
-       "    search_from += QUOTES_RE.search(initial[search_from:]).end(0)"] := by decide
+    Generated.C01.quotesRe.head? = some "\\\"([^\\\"]|\\\"\\\")*\\\"|'([^']|'')*'" ∧
+    Generated.C01.nbspRe = [" (?= )|(?<= ) ", ""] ∧
+    (Generated.C01.maskProbes.all fun p => maskObs p.1 == p.2) = true ∧
+    (Generated.C01.restoreProbes.all fun p => restoreObs p.1 p.2.1 == p.2.2) = true ∧
+    Generated.C01.maskProbes.length ≥ 20 ∧ Generated.C01.restoreProbes.length ≥ 20 := by
+  decide +kernel
 
 open Ford.Mask in
 /-- non-vacuity: `bits(2) = ["1", "0"]`, a statement whose second literal looks like the first placeholder,
@@ -499,21 +500,23 @@ theorem parameter_item_without_value_rejects (cfg : Cfg) (bd : Bool) (inh : Str)
     (h : paramsOk cfg stmts = false) : run cfg bd inh stmts = .error .indexError := by
   simp [Attribs.run, h]
 
-open Ford.Attribs Ford.AttribsSpec in
-/-- The statements of the current source that decide the attributes of a variable are the ones
-    `FordModel/Attribs.lean` mirrors (regenerated from the source on every run): every variable owns its attribute
-    list (`self.attribs = copy.copy(attribs)`, `copy.copy(attribs)` per entity in `line_to_variables`), the
-    classification loop, the `ATTRIB_RE` branch, both `process_attribs` loops, the `external` filter and `DIM_RE` -
-    in one of the variants (`Cfg`) of the four repairable places. -/
+open Ford.Attribs Ford.C01Obs in
+/-- What the current source does with the attributes of a variable is what `FordModel/Attribs.lean` computes
+    (regenerated from the working tree on every run): every variable owns its attribute list (observed on live
+    objects: the entities of one declaration get different lists, a variable does not share the list it was
+    constructed with, nor the default), `DIM_RE` means the modelled pattern, and on every probe - specification
+    parts of declarations and attribute statements that visit every branch of the classification loop of
+    `line_to_variables`, of the `ATTRIB_RE` branch, of both `process_attribs` loops and of the `external` filter,
+    in all five kinds of unit, read by the real `FortranSourceFile` - the variables of the unit (name, attributes
+    in order, dimension, intent, optional, permission, parameter, initial value) or the exception are the
+    model's answer for the variant `attrCfg` of the four repairable places that the translator observed. -/
 theorem attribs_source_as_modelled :
-    Generated.C01.attribsOwner = ownerSrc ∧ Generated.C01.dimReSrc = dimReSrc ∧
-    Generated.C01.attribClassify = classifySrc ∧ Generated.C01.blockDataCleanup = blockDataCleanupSrc ∧
-    (allCfgs.any fun cfg =>
-      ((Generated.C01.attribStmt == stmtSrc cfg && Generated.C01.attrKeyFn == [])
-        || (Generated.C01.attribStmt == stmtSrcK cfg true && Generated.C01.attrKeyFn == attrKeySrc))
-      && Generated.C01.processCodeUnit == processCodeUnitSrc cfg
-      && Generated.C01.processBlockData == processBlockDataSrc cfg && Generated.C01.externalFilter == filterSrc cfg) = true := by
-  decide
+    (Generated.C01.attribsOwnership.all fun p => p.2) = true ∧ Generated.C01.attribsOwnership.length = 3 ∧
+    Generated.C01.dimRe = ["^\\w+\\s*(\\(.*\\))\\s*$", ""] ∧
+    (Generated.C01.attrProbes.all fun p =>
+      attrsObs Generated.C01.attrCfg p.1 (chars! "public") p.2.1 == p.2.2) = true ∧
+    Generated.C01.attrProbes.length ≥ 30 := by
+  decide +kernel
 
 open Ford.Attribs in
 /-- Repair cbe48be files the items of an access / SAVE / OPTIONAL ... statement under `_attr_key(name)` instead of
@@ -658,46 +661,23 @@ theorem derived_type_declaration_is_a_declaration (t cl w rest : Str) (ht : lowe
     varRe (cl ++ (w ++ '(' :: rest)) = some (cl, '(' :: rest) :=
   ⟨typeRe_decl t w rest ht hw, varRe_decl_type t w rest ht hw, varRe_decl_class cl w rest hc hw⟩
 
-/-- `TYPE_RE`, `EXTENDS_RE`, `SPLIT_RE`, the statements of `FortranType._initialize`, the TYPE_RE branch of the
-    cascade and the `type` / `class` alternatives of `VARIABLE_STRING` in the current source are the texts
-    `TypeHead.typeRe`, `extendsSearch`, `splitStripped`, `typeInit`, `typeStmt` and `varRe` mirror (regenerated
-    from the source on every run). -/
+open Ford.TypeHead in
+/-- `TYPE_RE`, `EXTENDS_RE`, `SPLIT_RE` and `VARIABLE_RE` as compiled in the working tree mean the patterns
+    `TypeHead.typeRe`, `extendsSearch`, `splitStripped` and `varRe` were written for, and the TYPE_RE branch of the
+    cascade together with `FortranType._initialize` DOES what `typeStmt` computes: on every probe - a statement at the
+    place of a type definition in a module with default accessibility public / private, read by the real
+    `FortranSourceFile` - the recorded `FortranType` (name, parent, attributes, permission, parameters), or the
+    fact that none is recorded, is the model's answer (regenerated from the working tree on every run). -/
 theorem typehead_source_as_modelled :
     Generated.C01.typeRe =
       ["^type(?:\\s+|\\s*(,.*)?::\\s*)((?!(?:is\\s*\\())\\w+)\\s*(\\([^()]*\\))?\\s*$", "re.IGNORECASE"] ∧
     Generated.C01.extendsRe = ["extends\\s*\\(\\s*(?P<base>[^()\\s]+)\\s*\\)", "re.IGNORECASE"] ∧
     Generated.C01.splitRe = ["\\s*,\\s*", "re.IGNORECASE"] ∧
-    Generated.C01.typeInitialize =
-      ["self.name = line.group(2)",
-       "self.extends = None",
-       "self.attribs = []",
-       "if line.group(1):",
-       "    attribstr = line.group(1)[1:].strip()",
-       "    attriblist = self.SPLIT_RE.split(attribstr.strip())",
-       "    for attrib in attriblist:",
-       "        attrib_lower = attrib.strip().lower()",
-       "        if (extends := EXTENDS_RE.search(attrib)):",
-       "            self.extends = extends['base']",
-       "        elif attrib_lower in ['public', 'private']:",
-       "            self.permission = attrib_lower",
-       "        elif attrib_lower == 'external':",
-       "            self.attribs.append('external')",
-       "        else:",
-       "            self.attribs.append(attrib.strip())",
-       "if line.group(3):",
-       "    paramstr = line.group(3).strip()",
-       "    self.parameters = self.SPLIT_RE.split(paramstr)",
-       "else:",
-       "    self.parameters = []"] ∧
-    Generated.C01.typeBranch =
-      ["(match := self.TYPE_RE.match(line)) and blocklevel == 0",
-       "if hasattr(self, 'types'):",
-       "    self.types.append(FortranType(source, match, self, self.permission))",
-       "    self.num_lines += self.types[-1].num_lines - 1",
-       "else:",
-       "    self.print_error(line, 'Unexpected derived TYPE')"] ∧
-    Generated.C01.variableTypeClassAlts = ["type(?!\\s+is)", "class(?!\\s+is|\\s+default)"] := by
-  decide
+    Generated.C01.variableRe =
+      ["^(integer|real|double\\s*precision|character|complex|double\\s*complex|logical|type(?!\\s+is)|class(?!\\s+is|\\s+default)|procedure|enumerator)\\s*((?:\\(|\\s\\w|[:,*]).*)$", "re.IGNORECASE"] ∧
+    (Generated.C01.typeProbes.all fun p => typeStmt p.1 p.2.1 == p.2.2) = true ∧
+    Generated.C01.typeProbes.length ≥ 40 := by
+  decide +kernel
 
 open Ford.TypeSpec Ford.TypeHead in
 /-- non-vacuity: the hypotheses are met by ordinary statements, and the model computes on them -/
@@ -714,6 +694,81 @@ example :
     attrItemOk ((chars! " "), (chars! "Extends( isotope )"), (chars! " ")) = true ∧
     (typeRe (chars! "type pdt(k, n)")).map (typeInit (chars! "public"))
       = some ⟨(chars! "pdt"), none, [], (chars! "public"), [(chars! "(k"), (chars! "n)")]⟩ := by
+  decide
+
+/-! ### the entity of a declaration: its name and what follows it; dummy arguments (`FordModel/Entity.lean`) -/
+
+open Ford.Entity Ford.Show in
+/-- **An entity is documented under its declared name, whatever follows the name.**  For every name (not empty,
+    without `(`, `[`, `*`) and EVERY text that follows it - nothing, or anything that begins with one of the three
+    characters: an array specification, a coarray specification, a character length in either spelling, in any
+    combination and order, with any contents (`x(3)`, `a[*]`, `b(2)[2,*]`, `c*10`, `buf*(*)`, `line*(80)`,
+    `w(3)*(2*n)`) - `FortranVariable.__init__` records exactly that name and keeps exactly that text. -/
+theorem entity_keeps_its_declared_name (n spec : Str) (hne : n ≠ []) (hn : ∀ x ∈ n, isNameDelim x = false)
+    (hs : spec = [] ∨ ∃ c r, spec = c :: r ∧ isNameDelim c = true) :
+    mkVar (n ++ spec) = ⟨n, spec⟩ :=
+  mkVar_exact (n, spec) ⟨hne, hn, hs⟩
+
+open Ford.Entity Ford.Show in
+/-- **Equivalent spellings of a character length do not reach the name.**  `character(len=L) :: n dims co`,
+    `character :: n dims co *L` and `character :: n dims co *(L)`: with any array specification `dims` (nothing or
+    `(..)`), any coarray specification `co` (nothing or `[..]`) and any length text, the entity is `n` in all
+    three, and the length text after the name is kept as written behind the specifications. -/
+theorem character_length_after_the_name (n dims co len : Str) (hne : n ≠ []) (hn : ∀ x ∈ n, isNameDelim x = false)
+    (hd : dims = [] ∨ ∃ r, dims = '(' :: r) (hc : co = [] ∨ ∃ r, co = '[' :: r) :
+    mkVar (n ++ (dims ++ co)) = ⟨n, dims ++ co⟩ ∧
+    mkVar (n ++ (dims ++ (co ++ '*' :: len))) = ⟨n, dims ++ (co ++ '*' :: len)⟩ ∧
+    mkVar (n ++ (dims ++ (co ++ '*' :: '(' :: (len ++ [')'])))) = ⟨n, dims ++ (co ++ '*' :: '(' :: (len ++ [')']))⟩ := by
+  refine ⟨mkVar_exact (n, _) ⟨hne, hn, ?_⟩, mkVar_exact (n, _) ⟨hne, hn, ?_⟩, mkVar_exact (n, _) ⟨hne, hn, ?_⟩⟩ <;>
+    rcases hd with rfl | ⟨r, rfl⟩ <;> rcases hc with rfl | ⟨r', rfl⟩ <;> simp [isNameDelim]
+
+open Ford.Entity Ford.Show in
+/-- **Every dummy argument takes its own declaration; the unit keeps exactly the other variables.**  For every
+    procedure whose declarations have the entities `name_i ++ follows_i` (names pairwise different, letter case
+    ignored; what follows a name is anything as in `entity_keeps_its_declared_name`) and whose dummy argument
+    list has pairwise different names: after `_cleanup` the i-th argument is the variable of the declaration with
+    the argument's name (letter case ignored) with everything that declaration says - or an implicitly typed
+    variable when there is no such declaration -, in the order of the argument list, and the variables of the
+    procedure are exactly the declared entities that are not dummy arguments, once each, in source order.  No
+    bound on the number of arguments or declarations.  (Interface bodies that describe dummy procedures are
+    outside this model.) -/
+theorem dummy_arguments_take_their_declarations (args : List Str) (ds : List (Str × Str))
+    (hd : ∀ e ∈ ds, EntOk e) (hnd : (ds.map fun e => lower e.1).Nodup) (ha : (args.map lower).Nodup) :
+    cleanup args (ds.map fun e => e.1 ++ e.2) =
+      (args.map (fun a =>
+          match ds.find? (fun e => lower a == lower e.1) with
+          | some e => Arg.declared ⟨e.1, e.2⟩
+          | none => Arg.implicit a),
+       (ds.filter fun e => !(args.any fun a => lower a == lower e.1)).map fun e => ⟨e.1, e.2⟩) :=
+  cleanup_exact args ds hd hnd ha
+
+open Ford.Entity in
+/-- What `FortranVariable.__init__` and `FortranProcedure._cleanup` DO in the working tree is what `Entity.mkVar`
+    and `Entity.cleanup` compute: on every probe - entity texts handed to the real constructor (all orders of the
+    three specifications, texts that begin with a delimiter, unbalanced ones), and subroutines whose dummy
+    arguments are declared with a character length after the name, with array and coarray specifications, in
+    another letter case, or not at all, read by the real `FortranSourceFile` - the recorded name / dimension, the
+    argument list and the remaining variables are the model's answer (regenerated on every run). -/
+theorem entity_source_as_modelled :
+    (Generated.C01.entityProbes.all fun p => mkVar p.1 == p.2) = true ∧
+    (Generated.C01.argProbes.all fun p => cleanup p.1 p.2.1 == (p.2.2.1, p.2.2.2)) = true ∧
+    Generated.C01.entityProbes.length ≥ 25 ∧ Generated.C01.argProbes.length ≥ 8 := by
+  decide +kernel
+
+open Ford.Entity Ford.Show in
+/-- non-vacuity (the classic spelling `character buf*(*), line*(80)` of two dummy arguments): the hypotheses hold and
+    the model computes the documented arguments and locals; cutting at "the first KIND of delimiter that occurs"
+    instead of the leftmost one names the entity `buf*` - the argument then loses its declaration, is documented as
+    an implicitly typed variable, and `buf*` is reported as a local variable nobody declared -/
+example :
+    let ds : List (Str × Str) := [((chars! "buf"), (chars! "*(*)")), ((chars! "n"), []), ((chars! "line"), (chars! "*(80)")),
+                                  ((chars! "tmp"), (chars! "(3)*4"))]
+    (ds.all fun e => !e.1.isEmpty && e.1.all (fun x => !isNameDelim x)) = true ∧
+    cleanup [(chars! "BUF"), (chars! "n"), (chars! "line"), (chars! "k")] (ds.map fun e => e.1 ++ e.2)
+      = ([.declared ⟨(chars! "buf"), (chars! "*(*)")⟩, .declared ⟨(chars! "n"), []⟩, .declared ⟨(chars! "line"), (chars! "*(80)")⟩,
+          .implicit (chars! "k")], [⟨(chars! "tmp"), (chars! "(3)*4")⟩]) ∧
+    matchArgs [(chars! "buf")] [⟨(splitNameDimByKind (chars! "buf*(*)")).1, (splitNameDimByKind (chars! "buf*(*)")).2⟩]
+      = ([.implicit (chars! "buf")], [⟨(chars! "buf*"), (chars! "(*)")⟩]) := by
   decide
 
 end Ford.C01
